@@ -341,6 +341,73 @@ func staleLookups(p *pool) {
 	}
 }
 
+// restartCases: a second process starts against the live, loaded segment the way main_init does — as creator
+// (IS_NEW_SHM) or as opener — with or without its own LoadUHash, whose .PASSWDS is missing, torn after an agreeing
+// prefix, shorter than the table, or agreeing; the chain is out of slot order and (second round) one slot is detached.
+// The ids served to the first process and to the long-lived peer must all still resolve afterwards.
+func restartCases(p *pool) {
+	fam, other := p.fams[0], p.fams[1]
+	for _, withDetached := range []bool{false, true} {
+		for _, how := range []string{"create", "open"} {
+			for fileKind := 0; fileKind < 5; fileKind++ {
+				if !run.Thorough() && withDetached && fileKind >= 3 {
+					continue
+				}
+				table := make([]ID, MAX)
+				copy(table, fam[:3])
+				table[5], table[9] = other[0], other[1]
+				if !startHistory(table) {
+					continue
+				}
+				step(fmt.Sprintf("set 1 %s", idTok(fam[3])), "") // chain 1 -> 2 -> 0: not in slot order
+				if withDetached && !over() {
+					step("remove 2", "")
+				}
+				step("search "+idTok(caseVariant(fam[1])), "")
+				step("peer search "+idTok(caseVariant(fam[3])), "")
+				if over() {
+					continue
+				}
+				t := liveTable()
+				switch fileKind {
+				case 0:
+					step("file none", "file")
+					step("restart "+how+" load", "")
+				case 1:
+					step(fileLine(true, t[:7]), "file")
+					step("restart "+how+" load", "")
+				case 2:
+					step(fileLine(false, t), "file")
+					step("restart "+how+" load", "")
+				case 3:
+					step(fileLine(false, t[:2]), "file")
+					step("restart "+how+" load", "")
+				case 4:
+					step("file none", "file")
+					step("restart "+how+" noload", "")
+				}
+				for _, q := range []ID{fam[3], fam[1], fam[2], other[1]} {
+					if !over() {
+						step("search "+idTok(caseVariant(q)), "")
+					}
+				}
+				if !over() {
+					step("peer lookupall", "")
+				}
+				if !over() { // the index still takes changes
+					step(fmt.Sprintf("set 3 %s", idTok(fam[4])), "")
+					step("lookupall", "")
+				}
+				if !over() && fileKind == 0 { // and a later reload by the owner, once the file is back
+					step(fileLine(false, liveTable()), "file")
+					step("load", "")
+					step("lookupall", "")
+				}
+			}
+		}
+	}
+}
+
 func randomTable(p *pool, kind int) []ID {
 	r := run.R
 	table := make([]ID, MAX)
@@ -551,10 +618,26 @@ func history(p *pool, kind int, nOps int) {
 			step("dosearch "+idTok(ID{}), "")
 		case c < 82:
 			step(fmt.Sprintf("getuserid %d", r.Intn(MAX+3)-1), "")
-		case c < 92: // reload on the fly from a file that agrees with the live table
-			if len(detached) > 0 {
-				continue
+		case c < 84: // a second process starts against the live segment; its .PASSWDS is missing, torn, or agrees
+			how := []string{"create", "open"}[r.Intn(2)]
+			t := liveTable()
+			switch r.Intn(4) {
+			case 0:
+				step("file none", "file")
+			case 1:
+				step(fileLine(true, t[:r.Intn(MAX)]), "file")
+			default:
+				step(fileLine(false, t), "file")
 			}
+			if r.Intn(5) == 0 {
+				step("restart "+how+" noload", "")
+			} else {
+				step("restart "+how+" load", "")
+			}
+			if !over() {
+				step(pfx(r.Intn(3) == 0)+"lookupall", "")
+			}
+		case c < 92: // reload on the fly from a file that agrees with the live table (detached slots are linked again)
 			t := liveTable()
 			if r.Intn(4) == 0 {
 				t = t[:r.Intn(MAX+1)]
@@ -723,6 +806,7 @@ func generate() {
 	run.Extra["empty_bucket_family"] = len(p.emptyFam)
 	enumerate(p)
 	staleLookups(p)
+	restartCases(p)
 	nHist, nMal := 130, 25
 	if run.Thorough() {
 		nHist, nMal = 4000, 400
